@@ -54,6 +54,11 @@ def extra_templates():
     ts.append(("G4", {"I": ["W"], "F": ["S"], "O": ["Q"]}, E("O", ["q"], times(T("F", "s"), T("I", {"s": 1, "q": 2})))))
     ts.append(("G5", {"I": ["H", "W"], "F": ["R", "S"], "O": ["P", "Q"]},
                E("O", ["p", "q"], times(T("I", {"p": 1, "r": 1}, {"q": 1, "s": 1}), T("F", "r", "s")))))
+    # one access mixing plain and coefficient index terms (order of first appearance inside the access)
+    ts.append(("G9", {"I": ["W"], "F": ["R", "S"], "O": ["Q"]}, E("O", ["q"], times(T("I", {"q": 1, "r": 2, "s": 1}), T("F", "r", "s")))))
+    ts.append(("G10", {"I": ["W"], "F": ["R", "S"], "O": ["P", "Q"]},
+               E("O", ["p", "q"], times(T("I", {"p": 3, "q": 1, "r": 3, "s": 1}), T("F", "r", "s")))))
+    ts.append(("G11", {"I": ["W"], "F": ["S", "R"], "O": ["Q"]}, E("O", ["q"], times(T("F", "s", "r"), T("I", {"r": 2, "q": 1, "s": 1})))))
     # contracted ranks appearing in a different order in different terms
     ts.append(("G6", None, E("Z", ["m"], times(T("A", "k", "j", "m")), times(T("B", "j", "k", "m")))))
     ts.append(("G7", None, E("Z", ["m"], times(T("A", "j", "m"), T("B", "k", "m")), take(T("C", "k", "m"), T("D", "j", "m"), sel=0))))
